@@ -31,7 +31,7 @@ def _describe(tier):
         'bounds': 'part A: all partitions of N<=%d into <=4 parts x all permutations; part B: all partitions in the block window (first 40 per point in quick)' % n,
         'assumptions': ['chance coincidence of two random placements of >= 12 blocks <= 1/12! = 2.1e-9 per case (inside the property\'s own 1e-8)',
                         'DP17 part B uses level ratio 1.0 and singleton-heavy databases so that the bucket choice alone has probability < 1e-8 of repeating'],
-        'must_be_nonzero': ['permutations', 'sorted-tables', 'large-label-tables', 'array-cases', 'deep-array-cases', 'deep-blocks-compared', 'scheme-copies-compared'],
+        'must_be_nonzero': ['permutations', 'sorted-tables', 'large-label-tables', 'array-cases', 'deep-array-cases', 'deep-blocks-compared', 'scheme-copies-compared', 'forked-worker-placements-compared'],
     }
 
 
